@@ -703,12 +703,8 @@ class GfRunner:
                     raise HarnessError(
                         f"unexpected program output {line!r}") from err
 
-        def run_group(gno):
-            """One group in its own process."""
-            code, out, err = self._execute(exe, gno, gno)
-            if code == 0:
-                collect(out)
-                return
+        def crashed(gno, err):
+            """Group gno (run on its own) crashed."""
             group = groups[gno]
             if len(group) > 1:
                 # unexpected crash among the non-risky items: isolate it
@@ -727,19 +723,30 @@ class GfRunner:
                 ref = self.run([dict(item, ptext=None)])
                 res[item["id"]]["F"] = ref[item["id"]]["F"]
             res[item["id"]]["crash"] = True
-            res[item["id"]]["crash_msg"] = err.strip()[-300:]
+            sig = [ln for ln in err.splitlines() if "signal" in ln]
+            res[item["id"]]["crash_msg"] = (sig[0] if sig
+                                            else err.strip()[-120:]).strip()
+
+        def run_range(first, last):
+            """Groups first..last in one process; on a crash the range is
+            halved (no recompilation) until the crashing groups are
+            isolated.  Output of a crashed process is discarded."""
+            if first > last:
+                return
+            code, out, err = self._execute(exe, first, last)
+            if code == 0:
+                collect(out)
+            elif first == last:
+                crashed(first, err)
+            else:
+                mid = (first + last) // 2
+                run_range(first, mid)
+                run_range(mid + 1, last)
 
         nsafe = sum(1 for grp in groups if not grp[0].get("risky"))
         try:
-            if nsafe:
-                code, out, _ = self._execute(exe, 0, nsafe - 1)
-                if code == 0:
-                    collect(out)
-                else:
-                    for gno in range(nsafe):
-                        run_group(gno)
-            for gno in range(nsafe, len(groups)):
-                run_group(gno)
+            run_range(0, nsafe - 1)
+            run_range(nsafe, len(groups) - 1)
         finally:
             try:
                 os.unlink(exe)
